@@ -92,7 +92,7 @@ func (in *Interp) ret(st *State, results []ast.Expr, pos token.Pos) {
 // guardImpliesNonNil: the current guard contains "<err>!=nil".
 func (in *Interp) guardImpliesNonNil(path string) bool {
 	for _, g := range in.guards {
-		if strings.Contains(g, path+"!=nil") && !strings.Contains(g, "!("+path+"!=nil") {
+		if strings.Contains(g, "!("+path+"==nil)") {
 			return true
 		}
 	}
@@ -754,14 +754,14 @@ func (in *Interp) execSwitch(st *State, x *ast.SwitchStmt) (*State, bool) {
 			var alts []string
 			for _, e := range cc.List {
 				if x.Tag != nil {
-					alts = append(alts, tag+"=="+in.operand(st, e))
+					alts = append(alts, eqCond(tag, in.operand(st, e)))
 				} else {
 					alts = append(alts, in.cond(st, e))
 				}
 			}
-			c = strings.Join(alts, " || ")
-			if len(alts) > 1 {
-				c = "(" + c + ")"
+			c = alts[0]
+			for _, a := range alts[1:] {
+				c = orCond(c, a)
 			}
 			prior = append(prior, alts...)
 		}
@@ -1068,6 +1068,19 @@ func (in *Interp) execRange(st *State, x *ast.RangeStmt) (*State, bool) {
 			rb.Cursor = ab.Cursor
 		}
 	}
+	// other locals assigned in the body (flags, objects) are unknown after the loop
+	for o := range others {
+		if _, isBuf := res.vars[o].(BufV); isBuf {
+			continue
+		}
+		if _, ok := res.vars[o]; ok {
+			if isBoolType(o.Type()) {
+				res.vars[o] = BoolV{"loopvar:" + o.Name()}
+			} else {
+				res.vars[o] = UnkV{"after-loop:" + o.Name()}
+			}
+		}
+	}
 	// fields strongly updated in the loop body
 	for k, v := range after.fields {
 		if bv, ok := before.fields[k]; !ok || bv.valString() != v.valString() {
@@ -1372,4 +1385,9 @@ func sortCursors(cs []*CursorStep) {
 			cs[j], cs[j-1] = cs[j-1], cs[j]
 		}
 	}
+}
+
+func isBoolType(t types.Type) bool {
+	b, ok := t.Underlying().(*types.Basic)
+	return ok && b.Info()&types.IsBoolean != 0
 }
